@@ -5,6 +5,7 @@ Grammar in design/C12.md; mirrored by go/props/c12.
 import DosModel.Model.Handlers
 import DosModel.Model.HandlersNode
 import DosModel.Model.HandlersP2P
+import DosModel.Model.HandlersChain
 import DosModel.Model.HandlersInv
 
 namespace Dos.Handlers
@@ -168,6 +169,67 @@ def parseConnEv (s : String) : Option ConnEv :=
           | some x => some (.req x)
           | none => (natAfter "x" s).map .disc
 
+def parseBig (s : String) : Option BigF :=
+  if s == "nil" then some none else s.toNat?.map some
+
+def parseGroupRec (s : String) : Option GroupRec :=
+  match s.splitOn ":" with
+  | [g, n, sec] => do pure ⟨← parseBig g, ← n.toNat?, ← bool01 sec⟩
+  | _ => none
+
+/-- a directly injected payload / error value (op `chain`) -/
+def parseChainEv (s : String) : Option ChainIn :=
+  let body := (s.drop 1).toString
+  let f := body.splitOn "/"
+  if s == "O" then some (.direct .other)
+  else if s == "E" then some (.errv .plain)
+  else if s.startsWith "X" then body.toNat?.map (fun i => .errv (.onchain i))
+  else if s.startsWith "G" then
+    match f with
+    | [g, ids] => do pure (.direct (.grouping (← parseBig g) (← (parts "." ids).mapM String.toNat?)))
+    | _ => none
+  else if s.startsWith "D" then (parseBig body).map (fun g => .direct (.dissolve g))
+  else if s.startsWith "K" then (parseBig body).map (fun g => .direct (.keyAccepted g))
+  else if s.startsWith "R" then
+    match f with
+    | [l, g] => do pure (.direct (.updateRandom (← parseBig l) (← parseBig g)))
+    | _ => none
+  else if s.startsWith "U" then
+    match f with
+    | [r, l, sd, g] => do pure (.direct (.userRandom (← parseBig r) (← parseBig l) (← parseBig sd) (← parseBig g)))
+    | _ => none
+  else if s.startsWith "Q" then
+    match f with
+    | [q, r, g] => do pure (.direct (.url (← parseBig q) (← parseBig r) (← parseBig g)))
+    | _ => none
+  else if s.startsWith "C" then
+    match f with
+    | [c, st, cd, rd] => do pure (.direct (.startCR (← parseBig c) (← parseBig st) (← parseBig cd) (← parseBig rd)))
+    | _ => none
+  else none
+
+/-- a raw log (op `chainraw`): the same letters, numbers only; prefix `r:` = Removed, `d:` = re-delivery of the
+same log (identity of the first occurrence of the same text); `N` an event nobody subscribed to; `J` junk -/
+def parseRawEv (all : List String) (s : String) : Option ChainIn :=
+  let removed := s.startsWith "r:"
+  let t := if s.startsWith "r:" || s.startsWith "d:" then (s.drop 2).toString else s
+  -- identity: position of the first occurrence of the log text (with or without prefix)
+  let strip (x : String) : String := if x.startsWith "r:" || x.startsWith "d:" then (x.drop 2).toString else x
+  let ident := (all.map strip).idxOf t
+  if t == "J" then some .junk
+  else if t == "N" then some (.log .unsubscribed removed ident)
+  else if t == "E" then some (.errv .plain)
+  else if t.startsWith "X" then some (.errv (.onchain 0))
+  else match parseChainEv t with
+    | some (.direct (.grouping (some g) ids)) => some (.log (.grouping g ids) removed ident)
+    | some (.direct (.dissolve (some g))) => some (.log (.dissolve g) removed ident)
+    | some (.direct (.keyAccepted (some g))) => some (.log (.keyAccepted g) removed ident)
+    | some (.direct (.updateRandom (some l) (some g))) => some (.log (.updateRandom l g) removed ident)
+    | some (.direct (.userRandom (some r) (some l) (some sd) (some g))) => some (.log (.userRandom r l sd g) removed ident)
+    | some (.direct (.url (some q) (some r) (some g))) => some (.log (.url q r g) removed ident)
+    | some (.direct (.startCR (some c) (some st) (some cd) (some rd))) => some (.log (.startCR c st cd rd) removed ident)
+    | _ => none
+
 def parseSerfEv (s : String) : Option SerfEv :=
   if s == "u" then some .other
   else match s.splitOn ":" with
@@ -278,6 +340,20 @@ def step (cfg : Cfg) (line : String) : String :=
           | some _ => "ok"
         s!"{r} dials={connDials es outs}"
     | none => bad
+  | ["chain", groups, evs] =>
+    -- the node's id is 1; the chain double has no endpoint table (any index is accepted)
+    match (parts "," groups).mapM parseGroupRec, (parts ";" evs).mapM parseChainEv with
+    | some gs, some es => showOuts (chainRun cfg 1 { groups := gs, nWs := 2 ^ 64 } es).2
+    | _, _ => bad
+  | ["chainraw", groups, evs] =>
+    let ws := parts ";" evs
+    match (parts "," groups).mapM parseGroupRec, ws.mapM (parseRawEv ws) with
+    | some gs, some es => showOuts (chainRun cfg 1 { groups := gs, nWs := 1 } es).2
+    | _, _ => bad
+  | ["bootips", u, f, k] =>
+    match bool01 u, bool01 f, k.toNat? with
+    | some u, some f, some k => (getBootIps cfg u f k).show
+    | _, _, _ => bad
   | ["mdisp", m] =>
     if m == "nil" then (messageDispatch cfg .nilMsg).show
     else if m == "sub" then (messageDispatch cfg .subscribed).show
